@@ -84,8 +84,8 @@ def run(chk, facts, tier):
             chk.instance('group-type-checked', fn, name, bool(ok), '' if ok else 'other group types are answered as if they were «Primary Service»', key=name)
     # declaration attribute type: `attr { bits( has_option< is_secondary_service, Options... >::value ? secondary_service : primary_service ), &access }`
     decl = [v for v in facts.vars if v['q'] == 'bluetoe::details::generate_attribute::attr' and v['file'].endswith('service.hpp') and any(n.k == 'ConditionalOperator' for n in v['tree'].walk())]
-    chk.require(len(decl) == 1, 'service declaration attribute definition (generate_attribute<service_defintion_tag,...>::attr) not found')
-    for v in decl:
+    chk.require(len({(v['file'], v.get('line')) for v in decl}) == 1, 'service declaration attribute definition (generate_attribute<service_defintion_tag,...>::attr) not found')
+    for v in decl[:1]:
         c = next(n for n in v['tree'].walk() if n.k == 'ConditionalOperator')
         cond, a, b2 = c.c
         ok_c = 'is_secondary_service' in (cond.d.get('qual') or '') and cond.n == 'value'
